@@ -848,7 +848,8 @@ theorem C13_no_resolver_is_neutral (E : Env) (fut : Except DiscErr (List Rec)) (
 
 /-- the records differ at most in their owner name -/
 def SameRData (r r' : Rec) : Prop :=
-  r.usage = r'.usage ∧ r.selector = r'.selector ∧ r.mtype = r'.mtype ∧ r.tag = r'.tag
+  r.usage = r'.usage ∧ r.selector = r'.selector ∧ r.mtype = r'.mtype ∧ r.tag = r'.tag ∧
+    r.dlen = r'.dlen
 
 /-- law of the matching primitive: miekg's `TLSA.Verify` reads `Usage`/`Selector`/`MatchingType`/
 `Certificate` of the record, not its header -/
@@ -866,7 +867,7 @@ theorem isTA_reown (f : Rec → Nat) (r : Rec) : isTA (reown f r) = isTA r := by
 
 theorem recMatches_reown (E : Env) (h : OwnerBlind E) (f : Rec → Nat) (r : Rec) (c : Cert) :
     E.recMatches (reown f r) c = E.recMatches r c :=
-  h _ _ c ⟨rfl, rfl, rfl, rfl⟩
+  h _ _ c ⟨rfl, rfl, rfl, rfl, rfl⟩
 
 theorem eeRecs_reown (f : Rec → Nat) (recs : List Rec) :
     eeRecs (recs.map (reown f)) = (eeRecs recs).map (reown f) := by
@@ -1218,6 +1219,356 @@ theorem C13_resolver_authenticated_sound (E : Env) (T : Transport) (W : List Srv
         rw [h4, hmrecs, ← hrec]; exact hv
     · cases hD
 
+/-! ## Association data of the wrong length: a usable record that cannot match
+
+RFC 7672 §3.1 decides usability by usage / selector / matching type. A record whose association data
+has a length no digest of its matching type has (a 31-byte "SHA-256" digest, an empty field, a
+SHA-256-sized value under matching type 2) is still a usable record of the RRset: it can match no
+certificate, so it forces TLS and — when nothing else matches — gets the connection refused. No
+function of the model reads `dlen`, and no lookup function drops a record. -/
+
+/-- the association data has a length its matching type can produce (RFC 6698 §2.1.3) -/
+def DataFits (r : Rec) : Prop :=
+  (r.mtype = 1 → r.dlen = 32) ∧ (r.mtype = 2 → r.dlen = 64) ∧ (r.mtype = 0 → r.dlen ≠ 0)
+
+instance (r : Rec) : Decidable (DataFits r) := by unfold DataFits; infer_instance
+
+/-- law of the matching primitive (`TLSA.Verify` compares the record's data with what it computes
+from the certificate): data of a length the matching type never yields equals nothing -/
+def MatchNeedsFit (E : Env) : Prop := ∀ r c, E.recMatches r c = true → DataFits r
+
+/-- rewrite the association data (content and length) of every record -/
+def redata (f : Rec → Nat × Nat) (r : Rec) : Rec := { r with tag := (f r).1, dlen := (f r).2 }
+
+/-- **C13 (usability does not look at the data).** -/
+theorem C13_usable_ignores_data (f : Rec → Nat × Nat) (r : Rec) : Usable (redata f r) ↔ Usable r := by
+  simp [Usable, redata]
+
+theorem isEE_redata (f : Rec → Nat × Nat) (r : Rec) : isEE (redata f r) = isEE r := by
+  simp [isEE, mtypeOk, selectorOk, redata]
+
+theorem isTA_redata (f : Rec → Nat × Nat) (r : Rec) : isTA (redata f r) = isTA r := by
+  simp [isTA, mtypeOk, selectorOk, redata]
+
+/-- the usable records of an RRset are the same records whatever their data is -/
+theorem C13_filter_ignores_data (f : Rec → Nat × Nat) (recs : List Rec) :
+    eeRecs (recs.map (redata f)) = (eeRecs recs).map (redata f) ∧
+    taRecs (recs.map (redata f)) = (taRecs recs).map (redata f) := by
+  constructor
+  · unfold eeRecs; rw [List.filter_map]; congr 1
+  · unfold taRecs; rw [List.filter_map]; congr 1
+
+/-- **C13 (records that can match nothing).** An RRset with a usable record in which no record
+matches any presented certificate: refused — "TLS is required" without a handshake, "No matching
+TLSA records" with one. -/
+theorem C13_unmatchable_rrset_refused (E : Env) (hempty : EmptyRootsFail E) (recs : List Rec)
+    (hs : Bool) (leaf : Cert) (rest : List Cert) (hu : ∃ r ∈ recs, Usable r)
+    (hno : ∀ r ∈ recs, ∀ c ∈ leaf :: rest, E.recMatches r c = false) :
+    verifyDANE E recs hs (leaf :: rest) =
+      .ret false (some (if hs then DErr.noMatch else DErr.tlsRequired)) := by
+  obtain ⟨_, s2, _, _, s5⟩ := verifyDANE_spec E recs hs leaf rest
+  have hne : recs ≠ [] := by
+    rintro rfl; obtain ⟨r, hr, _⟩ := hu; cases hr
+  cases hhs : hs with
+  | false => rw [← hhs, s2 hne hhs]; simp [hhs]
+  | true =>
+    rw [← hhs, s5 hhs hu]
+    · simp [hhs]
+    · rintro (⟨r, hr, _, _, hm⟩ | ⟨_, hv⟩)
+      · rw [hno r hr leaf (by simp)] at hm; cases hm
+      · have hroots : rootAdds E (taRecs recs) (leaf :: rest) = [] := by
+          apply List.eq_nil_iff_forall_not_mem.mpr
+          intro c hc
+          obtain ⟨hcc, _, r, hr, _, _, hm⟩ := (mem_rootAdds E recs _ c).mp hc
+          rw [hno r hr c hcc] at hm; cases hm
+        rw [hroots, hempty] at hv; cases hv
+
+/-- **C13 (malformed digests fail closed).** Every record of the RRset carries association data of a
+length its matching type cannot have, and one of them is usable: the connection is refused. (Were
+such records dropped before the decision, the RRset would read as "no TLSA records": see the
+example `malformed dropped` below.) -/
+theorem C13_malformed_rrset_refused (E : Env) (hfit : MatchNeedsFit E) (hempty : EmptyRootsFail E)
+    (recs : List Rec) (hs : Bool) (leaf : Cert) (rest : List Cert) (hu : ∃ r ∈ recs, Usable r)
+    (hmal : ∀ r ∈ recs, ¬ DataFits r) :
+    verifyDANE E recs hs (leaf :: rest) =
+      .ret false (some (if hs then DErr.noMatch else DErr.tlsRequired)) := by
+  apply C13_unmatchable_rrset_refused E hempty recs hs leaf rest hu
+  intro r hr c _
+  cases hm : E.recMatches r c with
+  | false => rfl
+  | true => exact absurd (hfit r c hm) (hmal r hr)
+
+/-- **C13 (a malformed record is never the match).** If the RRset authenticates the connection, a
+record with well-formed data did it: a DANE-EE match of the server certificate or an asserted anchor
+among the WELL-FORMED records alone. -/
+theorem C13_malformed_never_the_match (E : Env) (hfit : MatchNeedsFit E) (hempty : EmptyRootsFail E)
+    (recs : List Rec) (leaf : Cert) (rest : List Cert)
+    (h : Authenticated (verifyDANE E recs true (leaf :: rest))) :
+    EEMatch E (recs.filter (fun r => decide (DataFits r))) leaf ∨
+    ∃ c, Anchor E (recs.filter (fun r => decide (DataFits r))) (leaf :: rest) c := by
+  obtain ⟨_, hm⟩ := (C13_authenticates_iff E recs true leaf rest).mp h
+  rcases hm with ⟨r, hr, hu, h3, hmt⟩ | ⟨_, hv⟩
+  · exact Or.inl ⟨r, by simp [List.mem_filter, hr, hfit r leaf hmt], hu, h3, hmt⟩
+  · cases hroots : rootAdds E (taRecs recs) (leaf :: rest) with
+    | nil => rw [hroots, hempty] at hv; cases hv
+    | cons c _ =>
+      have hc : c ∈ rootAdds E (taRecs recs) (leaf :: rest) := by rw [hroots]; simp
+      obtain ⟨hcc, hca, r, hr, hu, h2, hmt⟩ := (mem_rootAdds E recs _ c).mp hc
+      exact Or.inr ⟨c, hcc, hca, r, by simp [List.mem_filter, hr, hfit r c hmt], hu, h2, hmt⟩
+
+/-- **C13 (the lookup hands over every record).** `AuthLookupTLSA` returns the TLSA records of the
+answer it used, all of them, in order — nothing is filtered by content. -/
+theorem C13_lookup_returns_every_record (m : Msg) :
+    authLookupTLSA (.ok m) = some ⟨none, m.ad, m.recs⟩ := rfl
+
+/-- **C13 (the published RRset reaches the decision).** One loopback resolver that answers every
+question (RCODE 0), address records of the MX name authenticated, TLSA RRset `recs` (non-empty)
+under the MX name delivered with AD set: the connection decision is `verifyDANE` on exactly `recs` —
+whatever the records look like. -/
+theorem C13_resolver_rrset_reaches_decision (E : Env) (T : Transport) (s : Srv) (hs : Bool)
+    (chain : List Cert) (ma m6 mc mr mm : Msg)
+    (hlb : s.loopback = true)
+    (ha : T s.a = some ma) (ha0 : ma.rcode = 0) (haad : ma.ad = true) (hrn : ma.rname = .same)
+    (h6 : T s.aaaa = some m6) (hc : T s.cname = some mc) (hr : T s.tlsaR = some mr)
+    (hm : T s.tlsaM = some mm) (hm0 : mm.rcode = 0) (hmad : mm.ad = true) :
+    resolverConn E T [s] hs chain = some (checkConn E true (.ok mm.recs) hs chain) := by
+  have hne : (ma.rcode != 0) = false := by simp [ha0]
+  have hme : (mm.rcode != 0) = false := by simp [hm0]
+  simp only [resolverConn, resolverDns, ask, exchange, List.map, exchangeLoop, ha, h6, hc, hr, hm,
+    hne, hme]
+  simp only [Bool.false_eq_true, ↓reduceIte, checkCNAMEAD, hrn]
+  cases h6c : (m6.rcode != 0) <;> cases hcc : (mc.rcode != 0) <;> cases hrc : (mr.rcode != 0) <;>
+    simp [authLookupCNAME, authLookupTLSA, connDecision, discoverTLSA, discoverSecure,
+      discoverAtMX, haad, hlb, hmad]
+
+/-! ## `connect`: the reference identifier of the DANE-TA validation is the MX host name
+
+Whatever the peer does on the (at most three) connection attempts — refuse the connection, hide or
+refuse STARTTLS, fail the handshake with a verification error or otherwise, present any chain — the
+connection state `CheckConn` is handed either is the plaintext one or reports the MX host name as
+server name; so the one X.509 query of `verifyDANE` is the one for the MX host name. -/
+
+theorem connectLoop_cfg_none (srv : Nat → Attempt) (n i : Nat) (level : TLSLevel) :
+    connectLoop srv (n + 1) i none level =
+      if (srv i).connectOk then .ok .none .plain else .fail := by
+  simp only [connectLoop]
+  cases (srv i).connectOk <;> simp
+
+/-- what `connectLoop` can leave: the plaintext state at level "none", or a completed handshake made
+under a configuration whose `ServerName` is the one every configuration in the loop carries -/
+theorem connectLoop_state (srv : Nat → Attempt) (host : Name) (fuel : Nat) :
+    ∀ (i : Nat) (cfg : Option TlsCfg) (level lv : TLSLevel) (st : ConnState),
+      (∀ c, cfg = some c → c.serverName = some host) →
+      connectLoop srv fuel i cfg level = .ok lv st →
+      (st = .plain ∧ lv = .none) ∨
+      (st.hs = true ∧ st.serverName = some host ∧ ∃ j, st.chain = (srv j).chain) := by
+  induction fuel with
+  | zero => intro i cfg level lv st _ h; simp [connectLoop] at h
+  | succ n ih =>
+    intro i cfg level lv st hcfg h
+    unfold connectLoop at h
+    simp only at h
+    split at h
+    · cases h
+    · split at h
+      · cases h; exact Or.inl ⟨rfl, rfl⟩
+      · rename_i c
+        have hc := hcfg c rfl
+        split at h
+        · cases h; exact Or.inl ⟨rfl, rfl⟩
+        · split at h
+          · cases h
+          · split at h
+            · cases h; exact Or.inr ⟨rfl, hc, i, rfl⟩
+            · split at h
+              · exact ih _ _ _ _ _ (by intro c' hc'; cases hc'; exact hc) h
+              · exact ih _ _ _ _ _ (by intro c' hc'; cases hc') h
+            · exact ih _ _ _ _ _ (by intro c' hc'; cases hc') h
+
+/-- **C13 (connect: the server name of the state is the MX host).** For EVERY behaviour of the peer
+on every attempt: a connection with a completed handshake reports `ServerName = host`. -/
+theorem C13_connect_servername_is_mx (host : Name) (base : Option TlsCfg) (srv : Nat → Attempt)
+    (lv : TLSLevel) (st : ConnState) (h : connect host base srv = .ok lv st) :
+    (st = .plain ∧ lv = .none) ∨
+    (st.hs = true ∧ st.serverName = some host ∧ ∃ j, st.chain = (srv j).chain) := by
+  unfold connect at h
+  apply connectLoop_state srv host 3 0 _ .authenticated lv st _ h
+  intro c hc
+  cases base with
+  | none => cases hc
+  | some b => simp at hc; rw [← hc]
+
+/-- one round of the loop with a TLS configuration in hand -/
+theorem connectLoop_some (srv : Nat → Attempt) (k i : Nat) (c : TlsCfg) (level : TLSLevel) :
+    connectLoop srv (k + 1) i (some c) level =
+      if !(srv i).connectOk then .fail
+      else if !(srv i).starttls then .ok .none .plain
+      else if !(srv i).starttlsCmdOk then .fail
+      else match (srv i).hello c with
+        | .ok => .ok level ⟨true, c.serverName, (srv i).chain⟩
+        | .verifyErr =>
+          if level == .authenticated then
+            connectLoop srv k (i + 1) (some { c with insecure := true }) .encrypted
+          else connectLoop srv k (i + 1) none .none
+        | .otherErr => connectLoop srv k (i + 1) none .none := by
+  rfl
+
+/-- three rounds are all the `retry:` loop can make (authenticated → encrypted → plaintext): more fuel
+changes nothing -/
+theorem connectLoop_fuel (srv : Nat → Attempt) (n i : Nat) (cfg : Option TlsCfg) :
+    connectLoop srv (n + 3) i cfg .authenticated = connectLoop srv 3 i cfg .authenticated := by
+  have hnone : ∀ k j lvl, connectLoop srv (k + 1) j none lvl = connectLoop srv 1 j none lvl := by
+    intro k j lvl; rw [connectLoop_cfg_none, connectLoop_cfg_none srv 0]
+  have henc : ∀ k j c, connectLoop srv (k + 1 + 1) j (some c) .encrypted =
+      connectLoop srv (0 + 1 + 1) j (some c) .encrypted := by
+    intro k j c
+    rw [connectLoop_some, connectLoop_some srv (0 + 1)]
+    simp only [show (TLSLevel.encrypted == TLSLevel.authenticated) = false from rfl,
+      Bool.false_eq_true, ↓reduceIte, hnone k, Nat.zero_add]
+  cases cfg with
+  | none => exact (hnone (n + 2) i _).trans (hnone 2 i _).symm
+  | some c =>
+    show connectLoop srv (n + 1 + 1 + 1) i (some c) .authenticated =
+      connectLoop srv (0 + 1 + 1 + 1) i (some c) .authenticated
+    rw [connectLoop_some, connectLoop_some srv (0 + 1 + 1)]
+    simp only [show (TLSLevel.authenticated == TLSLevel.authenticated) = true from rfl,
+      ↓reduceIte, henc n, hnone (n + 1), hnone (0 + 1)]
+
+/-- without a completed handshake `verifyDANE`, hence `CheckConn`, consults no primitive -/
+theorem checkConn_no_hs (E E' : Env) (hr : Bool) (fut : Except DiscErr (List Rec)) (chain : List Cert) :
+    checkConn E hr fut false chain = checkConn E' hr fut false chain := by
+  unfold checkConn
+  have : ∀ recs, verifyDANE E recs false chain = verifyDANE E' recs false chain := by
+    intro recs; simp [verifyDANE]
+  cases fut with
+  | error e => rfl
+  | ok recs => simp only [this]
+
+/-- **C13 (the reference identifier is the MX host name, whatever the handshake history).** For
+every behaviour of the peer on every attempt, every base configuration and every RRset: the decision
+`attemptMX` takes on the connection `connect` leaves is `CheckConn` with the X.509 primitive queried
+for `host` — never for the empty name (which switches host-name verification off), never for another
+name. -/
+theorem C13_reference_identifier_is_mx (EN : EnvN) (host : Name) (base : Option TlsCfg)
+    (srv : Nat → Attempt) (hr : Bool) (fut : Except DiscErr (List Rec)) (lv : TLSLevel)
+    (st : ConnState) (h : connect host base srv = .ok lv st) :
+    attemptMX EN host base srv hr fut = policyStep (EN.forName (some host)) hr fut lv st := by
+  have hstep : attemptMX EN host base srv hr fut =
+      policyStep (EN.forName st.serverName) hr fut lv st := by
+    simp only [attemptMX, h]
+  rw [hstep]
+  rcases C13_connect_servername_is_mx host base srv lv st h with ⟨rfl, _⟩ | ⟨_, hn, _⟩
+  · simp only [policyStep, ConnState.plain]
+    rw [checkConn_no_hs (EN.forName none) (EN.forName (some host))]
+  · rw [hn]
+
+theorem policyStep_authenticated (E : Env) (hr : Bool) (fut : Except DiscErr (List Rec))
+    (lv : TLSLevel) (st : ConnState) (h : policyStep E hr fut lv st = .ok .authenticated) :
+    lv = .authenticated ∨ checkConn E hr fut st.hs st.chain = .ret .authenticated none := by
+  unfold policyStep at h
+  split at h
+  · cases h
+  · cases h
+  · rename_i hc; exact Or.inr hc
+  · cases h; exact Or.inl rfl
+
+/-- the level can only go down in the loop -/
+theorem connectLoop_authenticated_level (srv : Nat → Attempt) (fuel : Nat) :
+    ∀ (i : Nat) (cfg : Option TlsCfg) (level : TLSLevel) (st : ConnState),
+      connectLoop srv fuel i cfg level = .ok .authenticated st → level = .authenticated := by
+  induction fuel with
+  | zero => intro i cfg level st h; simp [connectLoop] at h
+  | succ n ih =>
+    intro i cfg level st h
+    cases cfg with
+    | none =>
+      rw [connectLoop_cfg_none] at h
+      split at h <;> cases h
+    | some c =>
+      rw [connectLoop_some] at h
+      split at h
+      · cases h
+      · split at h
+        · cases h
+        · split at h
+          · cases h
+          · split at h
+            · cases h; rfl
+            · split at h
+              · cases ih _ _ _ _ h
+              · cases ih _ _ _ _ h
+            · cases ih _ _ _ _ h
+
+/-- `connect` reports "authenticated" only for a handshake that passed X.509 verification under the
+configuration named for the MX host, on the first attempt -/
+theorem C13_connect_authenticated_sound (host : Name) (base : Option TlsCfg) (srv : Nat → Attempt)
+    (st : ConnState) (h : connect host base srv = .ok .authenticated st) :
+    ∃ b, base = some b ∧ (srv 0).hello { b with serverName := some host } = .ok ∧
+      st = ⟨true, some host, (srv 0).chain⟩ := by
+  cases base with
+  | none =>
+    simp only [connect, Option.map] at h
+    rw [connectLoop_cfg_none] at h
+    split at h <;> cases h
+  | some b =>
+    refine ⟨b, rfl, ?_⟩
+    simp only [connect, Option.map] at h
+    rw [connectLoop_some] at h
+    split at h
+    · cases h
+    · split at h
+      · cases h
+      · split at h
+        · cases h
+        · split at h
+          · rename_i hh; cases h; exact ⟨hh, rfl⟩
+          · split at h
+            · cases connectLoop_authenticated_level srv _ _ _ _ _ h
+            · cases connectLoop_authenticated_level srv _ _ _ _ _ h
+          · cases connectLoop_authenticated_level srv _ _ _ _ _ h
+
+/-- **C13 (end to end on one MX, soundness).** If `attemptMX` ends with the level "authenticated",
+then either the first handshake passed X.509 verification for the MX host name (PKIX), or DANE did
+it: a handshake completed, discovery produced records, and `verifyDANE` authenticates with the X.509
+primitive queried for the MX host name — by `C13_authenticates_iff`: a usable DANE-EE record matches
+the server certificate, or the certificate verifies FOR `host` against the asserted anchors. -/
+theorem C13_attempt_authenticated_sound (EN : EnvN) (host : Name) (base : Option TlsCfg)
+    (srv : Nat → Attempt) (hr : Bool) (fut : Except DiscErr (List Rec))
+    (h : attemptMX EN host base srv hr fut = .ok .authenticated) :
+    (∃ b, base = some b ∧ (srv 0).hello { b with serverName := some host } = .ok) ∨
+    (∃ recs lv st, connect host base srv = .ok lv st ∧ st.hs = true ∧ hr = true ∧ fut = .ok recs ∧
+      (∃ j, st.chain = (srv j).chain) ∧
+      Authenticated (verifyDANE (EN.forName (some host)) recs true st.chain)) := by
+  cases hc : connect host base srv with
+  | fail => simp [attemptMX, hc] at h
+  | ok lv st =>
+    rw [C13_reference_identifier_is_mx EN host base srv hr fut lv st hc] at h
+    rcases policyStep_authenticated _ _ _ _ _ h with rfl | hck
+    · obtain ⟨b, hb, hh, _⟩ := C13_connect_authenticated_sound host base srv st hc
+      exact Or.inl ⟨b, hb, hh⟩
+    · obtain ⟨hhr, _, recs, hf, hv⟩ := (C13_checkConn_authenticated_iff _ hr fut st.hs st.chain none).mp hck
+      rcases C13_connect_servername_is_mx host base srv lv st hc with ⟨rfl, _⟩ | ⟨hhs, _, hj⟩
+      · exfalso
+        unfold Authenticated at hv
+        simp only [ConnState.plain] at hv
+        by_cases hne : recs = []
+        · rw [hne, C13_absent_is_neutral] at hv; cases hv
+        · rw [C13_no_tls_refused _ recs [] hne] at hv; cases hv
+      · rw [hhs] at hv
+        exact Or.inr ⟨recs, lv, st, rfl, hhs, hhr, hf, hj, hv⟩
+
+/-- **C13 (one MX, fails closed).** Records were discovered and the connection `connect` leaves is in
+plaintext (no STARTTLS offered, or the handshake failed otherwise than by verification): the MX is
+refused with "TLS is required", whatever the attempts looked like. -/
+theorem C13_attempt_plaintext_refused (EN : EnvN) (host : Name) (base : Option TlsCfg)
+    (srv : Nat → Attempt) (recs : List Rec) (hne : recs ≠ []) (lv : TLSLevel)
+    (h : connect host base srv = .ok lv .plain) :
+    attemptMX EN host base srv true (.ok recs) = .refused (.dane .tlsRequired) := by
+  rw [C13_reference_identifier_is_mx EN host base srv true _ lv _ h]
+  simp [policyStep, ConnState.plain, checkConn, C13_no_tls_refused _ recs [] hne]
+
+
+
 /-! ## T1: facts regenerated from the current `dane.go` / `security.go` -/
 
 section T1
@@ -1352,34 +1703,34 @@ example : PathEndsAtOneRoot exEnv := by
   · exact ⟨2, h2, by simp [exEnv, hl, h1]⟩
 
 -- DANE-EE 3 1 1 matching the leaf authenticates
-example : verifyDANE exEnv [⟨3, 1, 1, 0, 0⟩] true [0, 1, 2] = .ret true none := by decide
+example : verifyDANE exEnv [⟨3, 1, 1, 0, 0, 32⟩] true [0, 1, 2] = .ret true none := by decide
 -- DANE-TA 2 0 1 matching the root, chain leaf+intermediate+root: authenticates
-example : verifyDANE exEnv [⟨2, 0, 1, 2, 0⟩] true [0, 1, 2] = .ret true none := by decide
+example : verifyDANE exEnv [⟨2, 0, 1, 2, 0, 32⟩] true [0, 1, 2] = .ret true none := by decide
 -- the same record, root not presented: refused
-example : verifyDANE exEnv [⟨2, 0, 1, 2, 0⟩] true [0, 1] = .ret false (some .noMatch) := by decide
+example : verifyDANE exEnv [⟨2, 0, 1, 2, 0, 32⟩] true [0, 1] = .ret false (some .noMatch) := by decide
 -- DANE-TA matching the (non-CA) leaf: refused
-example : verifyDANE exEnv [⟨2, 0, 1, 0, 0⟩] true [0, 1, 2] = .ret false (some .noMatch) := by decide
+example : verifyDANE exEnv [⟨2, 0, 1, 0, 0, 32⟩] true [0, 1, 2] = .ret false (some .noMatch) := by decide
 -- an unusable record (matching type 3) next to a mismatching usable one: refused; alone: neutral
-example : verifyDANE exEnv [⟨3, 1, 3, 0, 0⟩, ⟨3, 1, 1, 7, 0⟩] true [0, 1, 2] = .ret false (some .noMatch) := by decide
-example : verifyDANE exEnv [⟨3, 1, 3, 0, 0⟩] true [0, 1, 2] = .ret false none := by decide
-example : verifyDANE exEnv [⟨3, 1, 3, 0, 0⟩] false [] = .ret false (some .tlsRequired) := by decide
+example : verifyDANE exEnv [⟨3, 1, 3, 0, 0, 32⟩, ⟨3, 1, 1, 7, 0, 32⟩] true [0, 1, 2] = .ret false (some .noMatch) := by decide
+example : verifyDANE exEnv [⟨3, 1, 3, 0, 0, 32⟩] true [0, 1, 2] = .ret false none := by decide
+example : verifyDANE exEnv [⟨3, 1, 3, 0, 0, 32⟩] false [] = .ret false (some .tlsRequired) := by decide
 -- the panic outcome exists (handshake "complete", no certificate)
-example : verifyDANE exEnv [⟨3, 1, 1, 0, 0⟩] true [] = .panic := by decide
+example : verifyDANE exEnv [⟨3, 1, 1, 0, 0, 32⟩] true [] = .panic := by decide
 -- hypotheses of C13_unusable_only_is_neutral / C13_no_tls_refused are satisfiable
-example : ∀ r ∈ [(⟨0, 0, 1, 0, 0⟩ : Rec), ⟨3, 2, 1, 0, 0⟩, ⟨3, 1, 3, 0, 0⟩, ⟨4, 1, 1, 0, 0⟩], ¬ Usable r := by decide
-example : Usable ⟨2, 1, 2, 5, 0⟩ ∧ Usable ⟨3, 0, 0, 5, 0⟩ := by decide
+example : ∀ r ∈ [(⟨0, 0, 1, 0, 0, 32⟩ : Rec), ⟨3, 2, 1, 0, 0, 32⟩, ⟨3, 1, 3, 0, 0, 32⟩, ⟨4, 1, 1, 0, 0, 32⟩], ¬ Usable r := by decide
+example : Usable ⟨2, 1, 2, 5, 0, 32⟩ ∧ Usable ⟨3, 0, 0, 5, 0, 32⟩ := by decide
 -- TAMatch / Anchor are inhabited
-example : Anchor exEnv [⟨2, 0, 1, 2, 0⟩] [0, 1, 2] 2 := by
-  refine ⟨by simp, by decide, ⟨2, 0, 1, 2, 0⟩, by simp, by decide, rfl, by decide⟩
+example : Anchor exEnv [⟨2, 0, 1, 2, 0, 32⟩] [0, 1, 2] 2 := by
+  refine ⟨by simp, by decide, ⟨2, 0, 1, 2, 0, 32⟩, by simp, by decide, rfl, by decide⟩
 
 /-- secure host, CNAME'd, TLSA under the canonical name is insecure, falls back to the MX name -/
 def exDns : Dns where
   checkCNAMEAD := .ok (false, .other)
   lookupCNAME := .ok true
-  tlsaRname := ⟨none, false, [⟨3, 1, 1, 9, 0⟩]⟩
-  tlsaMX := ⟨none, true, [⟨3, 1, 1, 0, 0⟩]⟩
+  tlsaRname := ⟨none, false, [⟨3, 1, 1, 9, 0, 32⟩]⟩
+  tlsaMX := ⟨none, true, [⟨3, 1, 1, 0, 0, 32⟩]⟩
 
-example : discoverTLSA exDns = .ok [⟨3, 1, 1, 0, 0⟩] := by rfl
+example : discoverTLSA exDns = .ok [⟨3, 1, 1, 0, 0, 32⟩] := by rfl
 example : connDecision exEnv true exDns true [0, 1, 2] = .ret .authenticated none := by decide
 example : connDecision exEnv true exDns false [] = .ret .none (some (.dane .tlsRequired)) := by decide
 -- SERVFAIL on the TLSA lookup of a secure host: temporary refusal
@@ -1397,12 +1748,12 @@ example : (DiscErr.lookup .other).isNotFound = false ∧ DiscErr.noAddress.isNot
 /-! ### owner names, resolver -/
 
 example : OwnerBlind exEnv := by
-  rintro r r' c ⟨_, _, _, h⟩
+  rintro r r' c ⟨_, _, _, h, _⟩
   simp [exEnv, h]
 
 /-- a DANE-TA record for the root, under the usual owner name (0) and under the name of a CNAME'd
 RRset (7): the same verdict, also for a leaf the X.509 primitive rejects -/
-example : verifyDANE exEnv [⟨2, 0, 1, 2, 7⟩] true [0, 1, 2] = verifyDANE exEnv [⟨2, 0, 1, 2, 0⟩] true [0, 1, 2] := by
+example : verifyDANE exEnv [⟨2, 0, 1, 2, 7, 32⟩] true [0, 1, 2] = verifyDANE exEnv [⟨2, 0, 1, 2, 0, 32⟩] true [0, 1, 2] := by
   decide
 
 /-- an honest validating resolver: signed A record, signed TLSA RRset under the MX name -/
@@ -1412,7 +1763,7 @@ def exSrv (loopback : Bool) : Srv where
   aaaa := ⟨some ⟨0, true, false, .empty, []⟩, none⟩
   cname := ⟨some ⟨0, true, false, .empty, []⟩, none⟩
   tlsaR := ⟨some ⟨3, false, false, .empty, []⟩, none⟩
-  tlsaM := ⟨some ⟨0, true, false, .empty, [⟨3, 1, 1, 0, 0⟩]⟩, none⟩
+  tlsaM := ⟨some ⟨0, true, false, .empty, [⟨3, 1, 1, 0, 0, 32⟩]⟩, none⟩
 
 example : resolverConn exEnv udpOnly [exSrv true] true [0, 1, 2] = some (.ret .authenticated none) := by
   decide
@@ -1438,13 +1789,81 @@ def exSrvTC (loopback : Bool) : Srv where
   aaaa := ⟨some ⟨0, false, true, .empty, []⟩, some ⟨0, true, false, .empty, []⟩⟩
   cname := ⟨some ⟨0, false, true, .empty, []⟩, some ⟨0, true, false, .empty, []⟩⟩
   tlsaR := ⟨some ⟨3, false, false, .empty, []⟩, some ⟨3, false, false, .empty, []⟩⟩
-  tlsaM := ⟨some ⟨0, false, true, .empty, []⟩, some ⟨0, true, false, .empty, [⟨3, 1, 1, 0, 0⟩]⟩⟩
+  tlsaM := ⟨some ⟨0, false, true, .empty, []⟩, some ⟨0, true, false, .empty, [⟨3, 1, 1, 0, 0, 32⟩]⟩⟩
 
 example : resolverConn exEnv tcpFallback [exSrvTC false] true [0, 1, 2] = some (.ret .none none) := by decide
 example : resolverConn exEnv tcpFallback [exSrvTC true] true [0, 1, 2] = some (.ret .authenticated none) := by decide
 /-- the tree's transport reads the truncated (empty) A answer: no address, temporary refusal -/
 example : resolverConn exEnv udpOnly [exSrvTC true] true [0, 1, 2] = some (.ret .none (some .tempLookup)) := by decide
 example : resolverDns udpOnly [] = none := by decide
+
+/-! ### malformed association data, connect -/
+
+/-- `exEnv` with a matching primitive that, like `TLSA.Verify`, compares data: a record whose data
+length does not fit its matching type equals nothing -/
+def exEnvF : Env := { exEnv with recMatches := fun r c => decide (DataFits r) && r.tag == c }
+
+example : MatchNeedsFit exEnvF := by
+  intro r c h
+  simp only [exEnvF, Bool.and_eq_true, decide_eq_true_eq] at h
+  exact h.1
+example : EmptyRootsFail exEnvF := by intro i l; simp [exEnvF, exEnv]
+example : ¬ DataFits ⟨3, 1, 1, 0, 0, 31⟩ ∧ ¬ DataFits ⟨2, 0, 2, 2, 0, 32⟩ ∧ ¬ DataFits ⟨3, 0, 0, 0, 0, 0⟩ ∧
+    Usable ⟨3, 1, 1, 0, 0, 31⟩ := by decide
+/-- `3 1 1` with a 31-byte "SHA-256" digest as the whole RRset: refused; `malformed dropped`: were
+the record dropped before the decision, the RRset would be empty and the connection accepted -/
+example : verifyDANE exEnvF [⟨3, 1, 1, 0, 0, 31⟩] true [0, 1, 2] = .ret false (some .noMatch) := by decide
+example : verifyDANE exEnvF [⟨3, 1, 1, 0, 0, 31⟩] false [] = .ret false (some .tlsRequired) := by decide
+example : verifyDANE exEnvF ([⟨3, 1, 1, 0, 0, 31⟩].filter (fun r => decide (DataFits r))) false [] = .ret false none := by
+  decide
+/-- a well-formed matching record next to it authenticates -/
+example : verifyDANE exEnvF [⟨3, 1, 1, 0, 0, 31⟩, ⟨2, 0, 1, 2, 0, 32⟩] true [0, 1, 2] = .ret true none := by decide
+/-- through the resolver: the wrong-length record is delivered and decides -/
+example : resolverConn exEnvF udpOnly
+    [{ exSrv true with tlsaM := ⟨some ⟨0, true, false, .empty, [⟨3, 1, 1, 0, 0, 31⟩]⟩, none⟩ }] true [0, 1, 2] =
+    some (.ret .none (some (.dane .noMatch))) := by decide
+
+/-- names: 0 = the MX host, 1 = another host. Certificate 5 = a leaf issued for host 1 by the same
+CA as the leaf 0. With an empty reference identifier X.509 checks no name. -/
+def exEnvN : EnvN where
+  recMatches := exEnv.recMatches
+  isCA := exEnv.isCA
+  chainVerifyAt name roots inters leaf :=
+    (roots.contains 1 || (roots.contains 2 && inters.contains 1)) &&
+      (match name with
+       | none => leaf == 0 || leaf == 5
+       | some n => (n == 0 && leaf == 0) || (n == 1 && leaf == 5))
+
+/-- a peer with a private CA: the handshake fails verification unless `InsecureSkipVerify` -/
+def privCA (chain : List Cert) : Nat → Attempt := fun _ =>
+  ⟨true, true, true, fun c => if c.insecure then .ok else .verifyErr, chain⟩
+
+example : connect 0 (some ⟨none, false⟩) (privCA [0, 1, 2]) = .ok .encrypted ⟨true, some 0, [0, 1, 2]⟩ := by
+  decide
+/-- DANE-TA for the root, leaf issued for the MX host: authenticated on the second handshake -/
+example : attemptMX exEnvN 0 (some ⟨none, false⟩) (privCA [0, 1, 2]) true (.ok [⟨2, 0, 1, 2, 0, 32⟩]) =
+    .ok .authenticated := by decide
+/-- the same anchor, leaf issued for ANOTHER host: refused -/
+example : attemptMX exEnvN 0 (some ⟨none, false⟩) (privCA [5, 1, 2]) true (.ok [⟨2, 0, 1, 2, 0, 32⟩]) =
+    .refused (.dane .noMatch) := by decide
+/-- what `C13_reference_identifier_is_mx` excludes: on a state without server name the same chain
+would pass -/
+example : policyStep (exEnvN.forName none) true (.ok [⟨2, 0, 1, 2, 0, 32⟩]) .encrypted ⟨true, none, [5, 1, 2]⟩ =
+    .ok .authenticated := by decide
+/-- a base configuration that names another host does not change the identifier -/
+example : attemptMX exEnvN 0 (some ⟨some 1, false⟩) (privCA [5, 1, 2]) true (.ok [⟨2, 0, 1, 2, 0, 32⟩]) =
+    .refused (.dane .noMatch) := by decide
+/-- no STARTTLS, or a handshake broken otherwise than by verification: plaintext, refused -/
+example : attemptMX exEnvN 0 (some ⟨none, false⟩) (fun _ => ⟨true, false, true, fun _ => .ok, []⟩) true
+    (.ok [⟨3, 1, 3, 0, 0, 32⟩]) = .refused (.dane .tlsRequired) := by decide
+example : attemptMX exEnvN 0 (some ⟨none, false⟩) (fun _ => ⟨true, true, true, fun _ => .otherErr, [0]⟩) true
+    (.ok [⟨3, 1, 1, 0, 0, 32⟩]) = .refused (.dane .tlsRequired) := by decide
+/-- PKIX-valid peer, no TLSA records: authenticated by X.509 on the first attempt -/
+example : attemptMX exEnvN 0 (some ⟨none, false⟩) (fun _ => ⟨true, true, true, fun _ => .ok, [0, 1]⟩) true
+    (.ok []) = .ok .authenticated := by decide
+/-- STARTTLS command refused: no fall-back, the MX is given up -/
+example : attemptMX exEnvN 0 (some ⟨none, false⟩) (fun _ => ⟨true, true, false, fun _ => .ok, [0]⟩) true
+    (.ok []) = .connErr := by decide
 
 end Examples
 
